@@ -68,7 +68,11 @@ def check_ties(prop):
     """Compile the tie files this property depends on. Returns a list of broken tie descriptions."""
     broken = []
     for t in TIES.get(prop, []):
-        cmd = ('cd %s/coq && timeout 600 coqc -Q Model Model -Q Proofs Proofs -Q Props Props -Q gen Gen -Q Tie Tie '
+        vo = os.path.join(VERIF, 'coq', 'Tie', t + '.vo')
+        srcs = [os.path.join(VERIF, 'coq', 'Tie', t + '.v'), os.path.join(VERIF, 'coq', 'gen', t + '.v')]
+        if os.path.exists(vo) and all(os.path.exists(x) and os.path.getmtime(vo) >= os.path.getmtime(x) for x in srcs):
+            continue       # built by make on this run from the current generated fragment
+        cmd = ('cd %s/coq && timeout 900 coqc -Q Model Model -Q Proofs Proofs -Q Props Props -Q gen Gen -Q Tie Tie '
                '-o %s/props/tie/%s.vo Tie/%s.v' % (VERIF, core.BUILD, t, t))
         os.makedirs(os.path.join(core.BUILD, 'props', 'tie'), exist_ok=True)
         rc, out = sh(cmd)
